@@ -192,19 +192,19 @@ Definition tr_cores (shape rank : list nat) : res (list (list nat)) :=
       end
   | _, _ => Err
   end.
-(* the rank rotation AS CODED: rank[mode:] + rank[:mode] on the (n+1)-list *)
+(* the rank rotation of the cyclic (n+1)-entry rank list: rank[mode:n_dim] + rank[:mode+1]  (repair e10d22b) *)
+Definition rot_ring (m : nat) (rank : list nat) : list nat := skipn m (removelast rank) ++ firstn (S m) rank.
 Definition tensor_ring (shape : list nat) (spec : rspec) (mode : nat) : res (list (list nat)) :=
   rbind (validate_tr_rank shape spec RRound) (fun rank =>
   let n := length shape in
   if n <=? mode then Err else
-  rbind (tr_cores (rot mode shape) (rot mode rank)) (fun cores => Ok (rot (n - mode) cores))).
-(* the intended rotation of a cyclic rank list: rank[mode:-1] + rank[:mode+1] *)
-Definition rot_ring (m : nat) (rank : list nat) : list nat := skipn m (removelast rank) ++ firstn (S m) rank.
-Definition tensor_ring_intended (shape : list nat) (spec : rspec) (mode : nat) : res (list (list nat)) :=
+  rbind (tr_cores (rot mode shape) (if mode =? 0 then rank else rot_ring mode rank)) (fun cores => Ok (rot (n - mode) cores))).
+(* the pre-repair rotation rank[mode:] + rank[:mode] (duplicates the boundary entry), kept for the regression witness *)
+Definition tensor_ring_pinned (shape : list nat) (spec : rspec) (mode : nat) : res (list (list nat)) :=
   rbind (validate_tr_rank shape spec RRound) (fun rank =>
   let n := length shape in
   if n <=? mode then Err else
-  rbind (tr_cores (rot mode shape) (rot_ring mode rank)) (fun cores => Ok (rot (n - mode) cores))).
+  rbind (tr_cores (rot mode shape) (rot mode rank)) (fun cores => Ok (rot (n - mode) cores))).
 
 (* ------------------------------------------------------------------ tucker (HOOI) *)
 (* every factor is U[:, :rank] of a truncated SVD of an (I_k x anything) unfolding *)
